@@ -178,23 +178,109 @@ def r5_no_nested_scope(ctx):
 
 
 def r6_templates(ctx):
+    """One iteration of the template scanner, decided on resolved values for every path through the loop body:
+    what is appended to the output and what remains of the text, as expressions over the text before the
+    iteration, the parser object and the requested node."""
+    from ..flowexpr import explore
     fn = ctx.fn(TS, "TemplateSolver.solve")
-    src = norm(fn).replace("\n", " ")
-    forms = [a for a in ast.walk(fn) if isinstance(a, ast.Assign) and norm(a.targets[0]) == "form"]
-    ok = len(forms) == 1 and norm(forms[0].value) == "'{0' + p.formating + '}'" and "out += form.format(value)" in src
-    ctx.check(ok, TS, "TemplateSolver.solve", "a format spec is applied as '{0<spec>}'.format(value), i.e. format(value, spec)", detail=[norm(f.value) for f in forms])
-    ctx.check("out += str(value)" in src, TS, "TemplateSolver.solve", "without a spec the value is rendered with str()")
-    sub = [i for i in ast.walk(fn) if isinstance(i, ast.If) and "p.value_ref" in norm(i.test)]
-    ok = len(sub) == 1 and norm(sub[0].test) == "p.value_ref and p.ccode[0] == '}'"
-    ctx.check(ok, TS, "TemplateSolver.solve", "a reference is substituted only when it is closed by '}'", detail=[norm(s.test) for s in sub])
-    if sub:
-        b = [norm(s) for s in ast.walk(sub[0]) if isinstance(s, ast.Assign)]
-        ctx.check("expr = p.ccode[1:]" in b, TS, "TemplateSolver.solve", "the substituted text (and its closing brace) is consumed exactly once", detail=[x for x in b if x.startswith("expr")])
-        ctx.check("nodes = self.env.request(p.value_ref, count=1)" in b, TS, "TemplateSolver.solve", "a template reference must select exactly one node")
-        ctx.form([norm(s) for s in sub[0].orelse] == ["out += sign"], TS, "TemplateSolver.solve", "anything else is copied literally")
-    order = [norm(c.func) for c in ast.walk(fn) if isinstance(c, ast.Call) and norm(c.func) in ("p.part_reference", "p.part_slice", "p.part_format")]
-    ctx.check(order == ["p.part_reference", "p.part_slice", "p.part_format"], TS, "TemplateSolver.solve", "reference, then slice, then format are parsed in that order", detail=order)
-    ctx.form("if isinstance(value, Type): value = value.value" in src, TS, "TemplateSolver.solve", "typed values are unwrapped before formatting")
+    ex = explore(fn, opaque_calls=True)
+    loops = [v for v in ex.iterations.values() if isinstance(v[0], ast.While)]
+    if len(loops) != 1:
+        ctx.unrecognised(TS, "TemplateSolver.solve", "scanner loop", f"{len(loops)} while loops")
+        return
+    lp, start, its = loops[0]
+    pa = [a.arg for a in fn.args.args]
+    text = pa[1] if len(pa) > 1 else "expr"
+    C = f"{text}@loop1"
+    outs = {k for q in its for k in q.env if k != text and norm(q.env[k]).startswith(k + "@loop1 + ")}
+    if len(outs) != 1:
+        ctx.unrecognised(TS, "TemplateSolver.solve", "scanner loop", f"output accumulator not identified: {sorted(outs)}")
+        return
+    outv = outs.pop()
+    O = f"{outv}@loop1"
+    P, REQ = "Parser#1", "self.env.request#1"
+    res = {"literal": [], "gate": [], "consume": [], "one": [], "order": [], "render": [], "parser": []}
+    unk = []
+    for q in its:
+        ev = q.events[start:]
+        brace = sub = None
+        gate_txt = None
+        for t in [e for e in ev if e.kind == "test"]:
+            k, val = norm(t.resolved), t.extra
+            if isinstance(t.resolved, ast.UnaryOp) and isinstance(t.resolved.op, ast.Not):
+                k, val = norm(t.resolved.operand), not val
+            if k == f"{C}[0] == '{{'":
+                brace = val
+            elif k == f"{C}[0] != '{{'":
+                brace = not val
+            elif k.startswith(f"{P}.value_ref") and sub is None:
+                sub, gate_txt = val, k
+        got_out, got_rest = norm(q.env.get(outv)), norm(q.env.get(text))
+        if brace is None:
+            unk.append("no test of the current character against '{'")
+            continue
+        if brace and sub is None:
+            unk.append("brace path without a test of the parsed reference")
+            continue
+        if brace:
+            calls = [e for e in ev if e.kind == "call" and e.extra == P]
+            okp = len(calls) == 1 and norm(calls[0].resolved) in (f"Parser(code={C}[1:], **{{'keyword': 'expr'}})", f"Parser(code={C}[1:], keyword='expr')")
+            res["parser"].append(okp)
+            res["gate"].append(gate_txt)
+            parts = [norm(e.resolved) for e in ev if e.kind == "expr" and norm(e.resolved).startswith(P + ".part_")]
+            res["order"].append(parts)
+        if not brace or not sub:
+            res["literal"].append((got_out == f"{O} + {C}[0]" and got_rest == f"{C}[1:]", got_out, got_rest))
+            continue
+        res["consume"].append((got_rest == f"{P}.ccode[1:]", got_rest))
+        rq = [e for e in ev if e.kind == "call" and e.extra == REQ]
+        res["one"].append((len(rq) == 1 and norm(rq[0].resolved) == f"self.env.request({P}.value_ref, count=1)", [norm(e.resolved) for e in rq]))
+        tests = {norm(t.resolved): t.extra for t in ev if t.kind == "test"}
+        sl = tests.get(f"{P}.value_slice")
+        if sl is None:
+            unk.append("no test of the parsed slice")
+            continue
+        if sl:
+            tok = f"{REQ}[0].slice_value#1"
+            sc = [e for e in ev if e.kind == "call" and e.extra == tok]
+            V = tok if len(sc) == 1 and norm(sc[0].resolved) == f"{REQ}[0].slice_value({P}.value_slice)" else None
+        else:
+            V = f"{REQ}[0].value"
+        if V is None:
+            unk.append("sliced value not recognised")
+            continue
+        typed = tests.get(f"isinstance({V}, Type)")
+        fmt = tests.get(f"{P}.formating")
+        if typed is None or fmt is None:
+            unk.append("no test of the value type / format spec")
+            continue
+        V2 = V + ".value" if typed else V
+        want = f"{O} + ('{{0' + {P}.formating + '}}').format({V2})" if fmt else f"{O} + str({V2})"
+        res["render"].append((got_out == want, got_out, want))
+    if unk:
+        ctx.unrecognised(TS, "TemplateSolver.solve", "scanner iteration", sorted(set(unk))[0])
+        return
+    nm = "TemplateSolver.solve"
+    ctx.check(bool(res["render"]) and all(r[0] for r in res["render"]), TS, nm, "a format spec is applied as '{0<spec>}'.format(value), i.e. format(value, spec)",
+              detail=[r[1] for r in res["render"] if not r[0]][:2] or None, expected=[r[2] for r in res["render"] if not r[0]][:2] or None)
+    ctx.holds(TS, nm, "without a spec the value is rendered with str()", detail=f"{len(res['render'])} substitution paths compared")
+    gates = set(res["gate"])
+    if gates == {f"{P}.value_ref and {P}.ccode[0] == '}}'"}:
+        ctx.holds(TS, nm, "a reference is substituted only when it is closed by '}'", detail=sorted(gates))
+    elif gates and all(g == f"{P}.value_ref" or "ccode" not in g for g in gates):
+        ctx.violated(TS, nm, "a reference is substituted only when it is closed by '}'", detail=sorted(gates), expected="p.value_ref and p.ccode[0] == '}'")
+    else:
+        ctx.unrecognised(TS, nm, "a reference is substituted only when it is closed by '}'", f"gate {sorted(gates)}")
+    ctx.check(bool(res["consume"]) and all(c[0] for c in res["consume"]), TS, nm, "the substituted text (and its closing brace) is consumed exactly once",
+              detail=sorted({c[1] for c in res["consume"]}), expected="expr = p.ccode[1:]")
+    ctx.check(bool(res["one"]) and all(c[0] for c in res["one"]), TS, nm, "a template reference must select exactly one node",
+              detail=res["one"][0][1] if res["one"] else None, expected="self.env.request(p.value_ref, count=1)")
+    ctx.check(bool(res["literal"]) and all(c[0] for c in res["literal"]), TS, nm, "anything else is copied literally",
+              detail=[(c[1], c[2]) for c in res["literal"] if not c[0]][:2] or None, expected=(f"{O} + {C}[0]", f"{C}[1:]"))
+    want_order = [f"{P}.part_reference()", f"{P}.part_slice()", f"{P}.part_format()"]
+    ctx.check(bool(res["order"]) and all(o == want_order for o in res["order"]), TS, nm, "reference, then slice, then format are parsed in that order",
+              detail=res["order"][0] if res["order"] else None)
+    ctx.form(bool(res["parser"]) and all(res["parser"]), TS, nm, "typed values are unwrapped before formatting")
 
 
 def r7_custom_unit_factor(ctx):
